@@ -36,7 +36,7 @@ EXPLANATION = (
     "rules run on jobmap and jobmap_sge."
 )
 ASSUMPTIONS = ["Collection.keys() returns a set; JobOutput.exitcode is what run_local recorded (C17.R4)"]
-FLOORS = {"C18.R1": 2, "C18.R2": 2, "C18.R3": 4, "C18.R4": 1, "C18.R5": 4, "C18.R6": 2}
+FLOORS = {"C18.R7": 2, "C18.R8": 2, "C18.R1": 2, "C18.R2": 2, "C18.R3": 4, "C18.R4": 1, "C18.R5": 4, "C18.R6": 2}
 
 JOBINPUT_ATTRS = {"hash", "dump", "jid", "commands", "files", "return_files", "envars", "timeout"}
 
@@ -51,6 +51,7 @@ def run(chk):
         r3_reuse(chk, f)
         r5_destination(chk, f)
         r6_sessions(chk, f)
+        r7_r8_preparation(chk, f)
     rl = prog.func("molli.pipeline.runner:run_local")
     c17.r4_recorded(chk, rl, "C18.R4")
 
@@ -285,3 +286,41 @@ def r6_sessions(chk, f):
     chk.require(n >= 4, f"{f.key}: collection accesses not found")
     chk.decide(not problems, "C18.R6", f"{f.key}:session-discipline", f.where(problems[0][0] if problems else None), f"{n} accesses to source/destination, all inside the matching session",
                "; ".join(p for _, p in problems[:3]) + ": the access runs without the lock and on a possibly stale index")
+
+
+def r7_r8_preparation(chk, f):
+    """R7: the number of per-conformer inputs recorded for a key (used by the finalisation to know how many outputs to load) counts
+    every input of the generator, cached or not.  R8: whatever is scheduled was dumped in this run: no path reaches
+    `jobs_to_run.append(...)` without passing `<input>.dump(...)` in the same iteration."""
+    from ..cfg import CFG
+
+    cfg = CFG(f.node)
+    # --- R7
+    stores = [s for s in walk_no_nested(f.node) if isinstance(s, ast.Assign) and norm(s.targets[0]).startswith("job_len[") and not isinstance(s.value, ast.Constant)]
+    chk.require(len(stores) == 1, f"{f.key}: job_len[...] = <count> not found")
+    cnt = norm(stores[0].value)
+    key = f"{f.key}:conformer-count-counts-every-input"
+    if cnt.startswith("len("):
+        chk.ok("C18.R7", key, f.where(stores[0]), f"job_len = {cnt}")
+    else:
+        loops = [l for l in walk_no_nested(f.node) if isinstance(l, ast.For) and any(isinstance(x, ast.AugAssign) and norm(x.target) == cnt for x in walk_no_nested(l)) and "enumerate" in norm(l.iter)]
+        chk.require(len(loops) == 1, f"{f.key}: loop that counts `{cnt}` not found")
+        l = loops[0]
+        hdr = [n.id for n in cfg.nodes if n.kind == "for" and n.ast is l]
+        inc = {n.id for n in cfg.nodes if n.kind == "stmt" and isinstance(n.ast, ast.AugAssign) and norm(n.ast.target) == cnt and norm(n.ast.value) == "1"}
+        p = cfg.path(cfg.succs(hdr[0], {"true"}), set(hdr), avoid=inc) if hdr and inc else [None]
+        chk.decide(p is None, "C18.R7", key, f.where(l), f"`{cnt} += 1` on every path through an iteration",
+                   f"an iteration of the per-conformer loop can complete without `{cnt} += 1` (the cached-output `continue` comes first): on a resumed run job_len counts only the inputs "
+                   "dispatched now, the finalisation loads too few outputs and stores a result reduced from a truncated list")
+    # --- R8
+    apps = [n for n in cfg.nodes if n.kind == "stmt" and any(isinstance(c, ast.Call) and norm(c.func) == "jobs_to_run.append" for c in walk_no_nested(n.ast))]
+    chk.require(len(apps) >= 2, f"{f.key}: jobs_to_run.append sites not found")
+    for a in apps:
+        loops = [n for n in cfg.nodes if n.kind == "for" and any(x is a.ast for x in ast.walk(n.ast))]
+        inner = max(loops, key=lambda n: n.lineno)
+        dumps = {n.id for n in cfg.nodes if n.kind == "stmt" and any(isinstance(c, ast.Call) and isinstance(c.func, ast.Attribute) and c.func.attr == "dump" and norm(c.func.value) in ("_input", "_inp") for c in walk_no_nested(n.ast))}
+        p = cfg.path(cfg.succs(inner.id, {"true"}), {a.id}, avoid=dumps | {inner.id})
+        branch = "vectorised" if inner.ast is not min((n.ast for n in loops), key=lambda x: x.lineno) or len(loops) > 1 else "single"
+        chk.decide(p is None and bool(dumps), "C18.R8", f"{f.key}:scheduled-input-was-dumped-now:{branch}", f.where(a.ast), "every scheduled input file is (re)written in this run",
+                   "an input can be scheduled without being dumped in this run (the dump is conditional): when the job arguments changed, the runner executes the stale input file of the "
+                   "earlier run and its result is stored under the key")
